@@ -2843,7 +2843,7 @@ fn gen_c11(rng: &mut Rng, ops: &mut Vec<String>, stats: &mut Stats) {
                 };
                 stats.bump(&format!("gen.c11.class.{}", if d <= 2 { d.to_string() } else if d <= 245 { "3-245".into() } else { "246-256".into() }));
                 let tid = flip_target(&bid, d, rng);
-                ops.push(format!("squery A {}{}", hex::encode(tid), match rng.below(6) { 0 => " 0", 1 => " 1", 2 => " 2", 3 => " 16", _ => "" }));
+                ops.push(format!("squery A {}{}", hex::encode(tid), match rng.below(8) { 0 => " 0", 1 => " 1", 2 => " 2", 3 => " 16", 4 => " 18446744073709551615", 5 => " 1000000", _ => "" }));
                 if !others.is_empty() && rng.chance(1, 3) {
                     // the application takes a node the lookup started from out of the routing table
                     // while the lookup runs (it may not have been asked yet)
@@ -3458,7 +3458,7 @@ pub fn gen_case(rng: &mut Rng, tier: &str, profile: &str, stats: &mut Stats) -> 
         }
         for _ in 0..rng.range(1, 3) {
             let tid: Vec<u8> = rng.bytes(32);
-            ops.push(format!("squery A {}{}", hex::encode(tid), match rng.below(6) { 0 => " 0", 1 => " 1", 2 => " 2", 3 => " 16", _ => "" }));
+            ops.push(format!("squery A {}{}", hex::encode(tid), match rng.below(8) { 0 => " 0", 1 => " 1", 2 => " 2", 3 => " 16", 4 => " 18446744073709551615", 5 => " 1000000", _ => "" }));
             let all_fail = rng.chance(2, 3);
             for _ in 0..(npeers * 2 + 4) {
                 if all_fail || rng.chance(2, 3) {
